@@ -555,6 +555,7 @@ func init() {
 		Level: "model_checking",
 		Rule: "explicit-state breadth-first search over the real SignatureDatabase: states reached by replaying operation lists on fresh instances, deduplicated on the full structural dump (no abstraction); " +
 			"alphabet = Append/Remove x {SHA256,X509,SHA1,unknown type} x 2 owners x data {32-byte hashes, 31-byte, 20-byte, certificate DER/PEM of equal and different lengths}, AppendList (empty list, lists built by list-level AppendBytes incl. different lengths and duplicates), AppendDatabase, encode-decode; " +
+			"every new state is also reached with encoding and all membership queries called before every step (same state required); units beside the search: weak-equality twins of stored values, one list shared by two databases, a decoded database whose source buffer / slice the caller reuses; " +
 			"per transition the step is judged against the ordered-entry view (result class; exactly one entry added/removed; others keep content and order; error => unchanged), and in every state: all membership queries over the universe, no duplicate in a list, size equations, reference decoder accepts Bytes(), decode(encode)==state",
 		Assumptions: []string{"no separate model: the entry view is derived from the real object before and after each step", "removing by the PEM form of a stored DER certificate is not prescribed by the statement: both outcomes accepted if consistent"},
 		Units: func(tier string) []string {
@@ -670,6 +671,27 @@ func c09Run(c *hx.Ctx, tier, unit string) {
 					c.Outcome("state-violation")
 					c.Violation("C09 state invariant: "+iv, map[string]any{"history": pathNames(path), "detail": d})
 					continue
+				}
+				// the same history with the read-only operations (encoding, every membership query) called
+				// before every step: they leave nothing behind, the database ends up identical
+				{
+					dbo := init0.mk()
+					var pno *hx.Panic
+					for _, pi := range path {
+						if pno = hx.Try(func() {
+							c09Invariants(dbo)
+							var mb bytes.Buffer
+							dbo.Marshal(&mb)
+							c09Apply(dbo, ops[pi])
+						}); pno != nil {
+							break
+						}
+					}
+					if pno != nil || c09Key(dbo) != k {
+						c.Outcome("state-violation")
+						c.Violation("C09 the database differs when encoding and membership queries were called between the operations", map[string]any{"history": pathNames(path), "panic": fmt.Sprint(pno)})
+						continue
+					}
 				}
 				c.Outcome("state-ok")
 				if len(path) > maxDepth {
